@@ -136,8 +136,20 @@ print(p, q)
 write("f.txt", 1)
 `}}
 
+// P6 has P3's main file, byte for byte, next to ANOTHER lib/util.tsh: what a file imports is decided by the
+// file found at that place now, not by the import string an earlier program used.
+var P6 = Tree{Name: "P6-same-import-string-other-file", Main: "main.tsh", Files: map[string]string{
+	"main.tsh": P3.Files["main.tsh"],
+	"lib/util.tsh": `func Mark() string {
+	return "?"
+}
+func Twice(n int) int {
+	return n * 2 + 100
+}
+`}}
+
 // AlphabetTrees in alphabet order; call index = 2*tree + target.
-var AlphabetTrees = []Tree{P1, P2, P3, Perr, P4, P5, Perr2}
+var AlphabetTrees = []Tree{P1, P2, P3, Perr, P4, P5, Perr2, P6}
 
 // Schedule programs: they make the call-graph map that the import merge ranges over non-trivial.
 var (
